@@ -29,6 +29,7 @@ type sandboxFacts struct {
 	// guard helper summaries: function -> parameter index whose policy check it performs
 	filterGuards map[*ssa.Function]int
 	funcGuards   map[*ssa.Function]int
+	negGuards    map[string]map[*ssa.Function]int // "is blocked" helpers: false ⇒ checked
 }
 
 func isSandboxedLoad(v ssa.Value) (base ssa.Value, ok bool) {
@@ -107,6 +108,11 @@ func (s *sandboxFacts) guardFlow(fn *ssa.Function, name ssa.Value, method string
 				if g := c.Call.StaticCallee(); g != nil {
 					if pi, ok := helpers[g]; ok && pi < len(c.Call.Args) && sameValue(c.Call.Args[pi], name) {
 						return onTrue
+					}
+					// if blocked(name) { return violation }: the helper answers false only where
+					// the context is not sandboxed or the policy allowed the name
+					if pi, ok := s.negGuards[method][g]; ok && helpers != nil && pi < len(c.Call.Args) && sameValue(c.Call.Args[pi], name) {
+						return !onTrue
 					}
 				}
 			}
@@ -349,6 +355,10 @@ func checkC06(w *World, r *Report) {
 	r.Assumptions = []string{"every dynamic call of a filter/function goes through a value of the named types FilterFunc/FunctionFunc (R06.5 checks no conversion to interface{} occurs)"}
 
 	s := &sandboxFacts{w: w}
+	s.negGuards = map[string]map[*ssa.Function]int{
+		"IsFilterAllowed":   s.summariseNegGuards("IsFilterAllowed"),
+		"IsFunctionAllowed": s.summariseNegGuards("IsFunctionAllowed"),
+	}
 	s.filterGuards = s.summariseGuards("IsFilterAllowed")
 	s.funcGuards = s.summariseGuards("IsFunctionAllowed")
 	reach := w.renderReachable()
@@ -1341,4 +1351,83 @@ func checkPolicyAnswersFromValues(w *World, r *Report) {
 		}
 	}
 	r.floor("bool query methods of the package's policy implementations", n, 2)
+}
+
+
+// summariseNegGuards finds bool helpers B(… name string …) ("is this name blocked?") whose
+// every result that can be false is produced where the context is not sandboxed or the policy
+// allowed the name: a false constant returned in that state, or the negation of the policy query
+// for the same name (possibly as an operand of ||).
+func (s *sandboxFacts) summariseNegGuards(method string) map[*ssa.Function]int {
+	out := map[*ssa.Function]int{}
+	for _, fn := range s.w.pkgFuncs() {
+		res := fn.Signature.Results()
+		if res.Len() != 1 || !types.Identical(res.At(0).Type().Underlying(), types.Typ[types.Bool]) {
+			continue
+		}
+		mentions := false
+		instrsOf(fn, func(in ssa.Instruction) {
+			if v, ok := in.(ssa.Value); ok {
+				if _, ok := policyQuery(v, method); ok {
+					mentions = true
+				}
+			}
+		})
+		if !mentions {
+			continue
+		}
+		for pi, p := range fn.Params {
+			if !types.Identical(p.Type().Underlying(), types.Typ[types.String]) {
+				continue
+			}
+			fl := s.guardFlow(fn, p, method, nil)
+			var falseOnlyGuarded func(v ssa.Value, at *ssa.BasicBlock, seen map[ssa.Value]bool) bool
+			falseOnlyGuarded = func(v ssa.Value, at *ssa.BasicBlock, seen map[ssa.Value]bool) bool {
+				if seen[v] {
+					return true
+				}
+				seen[v] = true
+				if isConstBool(v, true) {
+					return true
+				}
+				if u, ok := v.(*ssa.UnOp); ok && u.Op == token.NOT {
+					if arg, ok := policyQuery(u.X, method); ok && sameValue(arg, p) {
+						return true // false iff the policy allowed the name
+					}
+				}
+				if ph, ok := v.(*ssa.Phi); ok {
+					for i, e := range ph.Edges {
+						if falseOnlyGuarded(e, ph.Block().Preds[i], seen) {
+							continue
+						}
+						pred := ph.Block().Preds[i]
+						if !fl.out(pred, fl.in[pred]) {
+							return false
+						}
+					}
+					return true
+				}
+				return false
+			}
+			good, nret := true, 0
+			instrsOf(fn, func(in ssa.Instruction) {
+				ret, ok := in.(*ssa.Return)
+				if !ok {
+					return
+				}
+				nret++
+				rv := retResults(ret)[0]
+				if falseOnlyGuarded(rv, ret.Block(), map[ssa.Value]bool{}) {
+					return
+				}
+				if !fl.at(in) {
+					good = false
+				}
+			})
+			if good && nret > 0 {
+				out[fn] = pi
+			}
+		}
+	}
+	return out
 }
